@@ -192,8 +192,16 @@ class Reference:
             inh = f.get("inherit")
             if not inh:
                 break
-            # a dynamic target sees only `context`
-            uri = inh[1] if inh[0] == "s" else eval(inh[1], {"__builtins__": {}}, {"context": self.ctx})
+            # a dynamic target sees only `context`; context['self'] is the most-derived view, which at this moment
+            # reaches the levels attached so far; a target that evaluates to None means "no parent"
+            if inh[0] == "s":
+                uri = inh[1]
+            else:
+                cx = dict(self.ctx)
+                cx["self"] = _View(self, 0)
+                uri = eval(inh[1], {"__builtins__": {}}, {"context": cx})
+                if uri is None:
+                    break
         self.k = len(self.levels) - 1
         # a call stack longer than the number of distinct render callables repeats one of them; callables take no
         # data-dependent branch, so such a stack never unwinds
@@ -378,7 +386,9 @@ def alphabet(seed):
 #   attr   : 1 = module attribute present
 #   page   : 1 = <%page args="z=0"/> and the body prints z
 #   anon   : 1 = an anonymous block in the body, and one inside m1 when m1 is present
-#   inh    : 's' static inherit target | 'd' target from ${context['upN']}   (ignored in the base-most level)
+#   inh    : 's' static inherit target | 'd' target from ${context['upN']} | 'a<j>' target from
+#            ${context['self'].attr.<attr>_layN}, the attribute declared at level j | 'n' / 'N' target
+#            ${context.get('upN')} with upN absent / None: no parent          (always 's' in the last level)
 #   cc     : '-' | 'n' next.body() | 's' self.body() | 'nz' next.body(z=..) | 'sz' self.body(z=..)
 
 KINDS = ("-", "d", "dp", "dn", "b", "bp")
@@ -401,8 +411,9 @@ def member_node(kind, name, i, fill, inner, sig=""):
     raise ValueError(kind)
 
 
-def build_file(i, L, spec, al, probes, defsig=""):
+def build_file(i, L, spec, al, probes, defsig="", extra_attrs=()):
     m1, m2, nest, attr, page, anon, inh, cc = spec
+    acts_as_base = i == L - 1 or inh in ("n", "N")  # a None inherit target: no parent
     fill = al["fill"]
     n1, n2 = al["n1"], al["n2"]
     body = [("T", "[B%d%s" % (i, fill))]
@@ -426,21 +437,37 @@ def build_file(i, L, spec, al, probes, defsig=""):
     if cc != "-":
         body.append(("E", {"n": "next.body()", "s": "self.body()", "nz": "next.body(z=%d)" % zval, "sz": "self.body(z=%d)" % zval}[cc]))
     for view, what in probes:
-        if view == "parent" and i == L - 1:
+        if view == "parent" and acts_as_base:
             continue  # `parent` in the base-most template: not defined by the statement
         if view == "next" and i == 0:
             continue  # `next` in the most-derived template: not defined by the statement
         if what == "attr":
             body += [("T", " %s.attr="  % view), ("E", "A(%s, %r)" % (view, al["attr"]))]
+        elif what == "own":
+            # the attribute that level k alone declares, for every level of the chain
+            for k in range(L):
+                body += [("T", " %s.own%d=" % (view, k)), ("E", "A(%s, %r)" % (view, "%s_own%d" % (al["attr"], k)))]
         else:
             nm = n1 if what == "m1" else n2
             body += [("T", " %s.%s=" % (view, nm)), ("E", "P(%s, %r)" % (view, nm))]
     body.append(("T", "]"))
     f = {"page": "z=0" if page else None, "inherit": None, "attrs": [], "body": body}
     if i < L - 1:
-        f["inherit"] = ("s", al["uri"] % (i + 1)) if inh == "s" else ("d", "context['up%d']" % (i + 1))
+        if inh == "s":
+            f["inherit"] = ("s", al["uri"] % (i + 1))
+        elif inh == "d":
+            f["inherit"] = ("d", "context['up%d']" % (i + 1))
+        elif inh in ("n", "N"):
+            # optional layout: the name is absent from the render context ('n') or bound to None ('N')
+            f["inherit"] = ("d", "context.get('up%d')" % (i + 1))
+        else:
+            # 'a<j>': the target is a module attribute declared at level j <= i, read through self.attr
+            f["inherit"] = ("d", "context['self'].attr.%s_lay%d" % (al["attr"], i + 1))
     if attr:
         f["attrs"].append((al["attr"], repr("%s@%d%s" % (al["attr"], i, fill))))
+    if any(what == "own" for _v, what in probes):
+        f["attrs"].append(("%s_own%d" % (al["attr"], i), repr("own@%d" % i)))
+    f["attrs"].extend(extra_attrs)
     return f
 
 
@@ -452,17 +479,26 @@ def build_program(chain, al, probes, defsig=""):
     files = {}
     ctx = {"P": "@helper:P", "A": "@helper:A"}
     pk = tuple(probes)
+    extras = {}
     for i, spec in enumerate(chain):
-        # a level's File depends only on its own spec, its place and the alphabet: built and printed once
-        key = (i, L, spec, al["n1"], al["uri"], pk, defsig)
+        if i < L - 1 and spec[6][0] == "a":
+            # level i takes its target from attribute <attr>_lay<i+1>, declared at level j
+            extras.setdefault(int(spec[6][1:]), []).append(("%s_lay%d" % (al["attr"], i + 1), repr(al["uri"] % (i + 1))))
+    for i, spec in enumerate(chain):
+        # a level's File depends only on its own spec, its place, the alphabet and the layout attributes other
+        # levels read from it: built and printed once
+        ex = tuple(extras.get(i, ()))
+        key = (i, L, spec, al["n1"], al["uri"], pk, defsig, ex)
         f = _FILES.get(key)
         if f is None:
-            f = build_file(i, L, spec, al, probes, defsig)
+            f = build_file(i, L, spec, al, probes, defsig, ex)
             f["_text"] = print_file(f)
             _FILES[key] = f
         files[al["uri"] % i] = f
         if i < L - 1 and spec[6] == "d":
             ctx["up%d" % (i + 1)] = al["uri"] % (i + 1)
+        if i < L - 1 and spec[6] == "N":
+            ctx["up%d" % (i + 1)] = None
     return {"files": files, "main": al["uri"] % 0, "ctx": ctx}
 
 
@@ -472,7 +508,7 @@ def chain_valid(chain):
         for m in (m1, m2):
             if m == "dn" and i == 0:
                 return False
-            if m in ("dp", "bp") and i == L - 1:
+            if m in ("dp", "bp") and (i == L - 1 or inh in ("n", "N")):
                 return False
         if nest and not (m1 in BLOCKS and m2 in BLOCKS):
             return False
@@ -482,8 +518,10 @@ def chain_valid(chain):
             return False  # z= only to a body that declares it
         if cc == "sz" and not chain[0][4]:
             return False
-        if inh == "d" and i == L - 1:
+        if inh != "s" and i == L - 1:
             return False
+        if inh[0] == "a" and int(inh[1:]) > i:
+            return False  # the attribute must be visible when the target is evaluated: same or more-derived level
     return True
 
 
@@ -571,6 +609,39 @@ def grid_attr(L, fam="D"):
     return (fam, L, opts, PROBES_ATTR, "")
 
 
+PROBES_OWN = [("self", "own"), ("local", "own"), ("self", "attr"), ("parent", "attr"), ("next", "attr")]
+
+
+def grid_attr_target(L, fam="E"):
+    """family E: inherit targets read from self.attr (attribute declared at the same or a more-derived level), then
+    self.attr / local.attr reads of an attribute declared at every level"""
+    opts = []
+    for i in range(L):
+        pos = _pos(i, L)
+        o = []
+        for attr in (0, 1):
+            for inh in ("s",) if pos in ("only", "base") else ["s", "d"] + ["a%d" % j for j in range(i + 1)]:
+                for cc in _cc(pos, ("-", "n")):
+                    o.append(("-", "-", 0, attr, 0, 0, inh, cc))
+        opts.append(o)
+    return (fam, L, opts, PROBES_OWN, "")
+
+
+def grid_none_target(L, fam="F"):
+    """family F: dynamic inherit targets that evaluate to None (absent from the context / bound to None) at any
+    non-base position: that level is the base-most one, the levels behind it are never reached"""
+    opts = []
+    for i in range(L):
+        pos = _pos(i, L)
+        o = []
+        for m1 in ("-", "d", "b"):
+            for inh in ("s",) if pos in ("only", "base") else ("s", "d", "n", "N"):
+                for cc in _cc(pos, ("-", "n", "s")):
+                    o.append((m1, "-", 0, 0, 0, 0, inh, cc))
+        opts.append(o)
+    return (fam, L, opts, PROBES_M1, "")
+
+
 def grid_chains(grid, shard=0, nshards=1):
     """the chain_valid() chains of the grid in product order; with nshards > 1 only those whose prefix (levels 0 and
     1; level 0 for short chains) has index = shard modulo nshards - the shards partition the grid"""
@@ -610,7 +681,13 @@ def grids(tier):
         g.append(grid_body(L))
     for L in (1, 2, 3, 4):
         g.append(grid_attr(L))
+    for L in (2, 3, 4):
+        g.append(grid_attr_target(L))
+    for L in (2, 3):
+        g.append(grid_none_target(L))
     if tier == "thorough":
+        g.append(grid_attr_target(5))
+        g.append(grid_none_target(4))
         for cc in ("-", "n", "s"):
             g.append(grid_members(4, True, (cc,), "A4" + cc))
         g.append(grid_members(5, False, ("-", "n", "s"), "B"))
